@@ -237,7 +237,7 @@ impl Case for C01Case {
                     if w.fatal.is_none() && w.listing_text().lines().map(|s| s.to_string()).collect::<Vec<_>>() != render_program(&cur) {
                         // the valid RENUM did not produce the model renumbering (C14 judges RENUM as such;
                         // here a RESTORE n or branch that did not follow its line is what matters)
-                        v.violation = Some(Violation {
+                        fail = Some(Violation {
                             key: format!("{}:renum-listing", self.prop),
                             detail: format!("{:?}: the listing is {:?}, the model renumbering {:?}", text, w.listing_text(), render_program(&cur)),
                         });
